@@ -57,6 +57,39 @@ Section TimeSeries.
     end.
 End TimeSeries.
 
+(* ---------------------------------------------------------------- multi-energy time series
+   The multinet is one description over the cells of all member nets.  The coupling controllers
+   (P2G, G2P, gas-to-gas) read INPUT cells of one net (p_mw * scaling, mdot_kg_per_s * scaling) and write
+   input cells of another one: together a function [couple] on descriptions that changes only the
+   derived cells and looks only at the cells it reads.  One step: ConstControl writes the profile row,
+   the couplings are applied, every net touched by a controller is (re)calculated (run_control_multinet:
+   _relevant_nets), the rows of all member nets are logged.  [spec] is the stand-alone calculation of
+   all member nets (each a pure function of its own cells by C12). *)
+Section MultiEnergy.
+  Variable C V R : Type.
+  Variable ceqb : C -> C -> bool.
+  Variable spec : desc C V -> option R.
+  Variable cells : list C.                     (* cells driven by profiles *)
+  Variable derived : list C.                   (* cells written by coupling controllers *)
+  Variable couple : desc C V -> desc C V.
+  Variable profile : nat -> C -> V.
+
+  Definition mstep (t : nat) (u : desc C V) : desc C V := couple (write_step C V ceqb cells profile t u).
+
+  Fixpoint mloop (cod : bool) (steps : list nat) (u : desc C V) (log : list (nat * option R))
+    : desc C V * list (nat * option R) * status :=
+    match steps with
+    | [] => (u, log, Finished)
+    | t :: rest =>
+        let u' := mstep t u in
+        match spec u' with
+        | Some r => mloop cod rest u' (log ++ [(t, Some r)])
+        | None => if cod then mloop cod rest u' (log ++ [(t, None)])
+                  else (u', log ++ [(t, None)], Raised t)
+        end
+    end.
+End MultiEnergy.
+
 (* lookup in the generated wiring table *)
 From Coq Require Import String.
 Fixpoint wget (k : string) (l : list (string * string)) : string :=
